@@ -98,10 +98,10 @@ PROPS["C15"] = {
 }
 
 PROPS["C18"] = {
-    "units": ["dbfacade", "table"],
+    "units": ["dbfacade", "table", "handlers"],
     "kani": [],
-    "level_text": "Proof on the real Brc20ProgDatabase::get_logs (three nested loops with invariants, termination): ranges wider than 6 blocks are refused; otherwise the result equals, as a sequence, the matching logs of the receipts of the range scan [key(from,0), key(to+1,0)) in entry order and log order, with the filter written from the statement (address equal if given; per position: null wildcard, single value equal, list = alternatives, null inside a list matches nothing).",
-    "level_note": COMMON_TRUST + "The range scan is the table's get_range contract (complete, duplicate-free, encoded-key order), proved against the real body in unit table; key order = (block, index) order is the U128 codec order lemma (C14). Rule N28 turns the two `for` loops that use `continue` into index loops (Verus has no `continue` in for-loops). Requires from <= to (a reversed range relies on wrapping arithmetic of the release profile and is refused as too large). Not covered: parse_block_number, the async handler, log contents produced by revm.",
+    "level_text": "Proof on the real Brc20ProgDatabase::get_logs (three nested loops with invariants, termination): ranges wider than 6 blocks are refused; otherwise the result equals, as a sequence, the matching logs of the receipts of the range scan [key(from,0), key(to+1,0)) in entry order and log order, with the filter written from the statement (address equal if given; per position: null wildcard, single value equal, list = alternatives, null inside a list matches nothing); parse_block_number on its real body: the tags latest / safe / finalized mean the latest height, pending the next one, earliest 0, a 0x prefix a hexadecimal and anything else a decimal number, for every string without panic.",
+    "level_note": COMMON_TRUST + "The range scan is the table's get_range contract (complete, duplicate-free, encoded-key order), proved against the real body in unit table; key order = (block, index) order is the U128 codec order lemma (C14). Rule N28 turns the two `for` loops that use `continue` into index loops (Verus has no `continue` in for-loops). Requires from <= to (a reversed range relies on wrapping arithmetic of the release profile and is refused as too large). Not covered: GetLogsFilter::topics_as_b256 (iterator chains), the handler eth_get_logs (closures over self), log contents produced by revm.",
     "assumptions": [
         "from <= to and heights < 2^63 are preconditions",
         "N28: `for x in vec` with `continue` rewritten to an index loop cloning the element",
@@ -144,9 +144,9 @@ PROPS["C08"] = {
     "assumptions": ["nonces, transaction indexes and arrival blocks are < 2^63", "drain-loop termination not proved", "pool invariant assumed at entry: nothing is parked at or beyond account nonce + 10 (parking precondition + monotone account nonces)", "a parked transaction is stored under its own signer and nonce (pool lookup shim)"],
 }
 PROPS["C09"] = {
-    "units": ["payload", "precompile", "scalars", "engine", "dbfacade", "blockdb", "dbslot"],
+    "units": ["payload", "precompile", "scalars", "engine", "dbfacade", "blockdb", "dbslot", "handlers"],
     "kani": [],
-    "level_text": "Panic-freedom and termination, with NO precondition on request-controlled arguments, of the extracted request-facing functions: payload decoders (index, slice, arithmetic), select_bytes, build_lock_script (any pkscript / lock count), gas helpers, fork schedule, mine_blocks (count 0, loop bound), block-table loops with decreases, get_logs loops; reachable panic!/expect/index are preconditions Verus must discharge; the engine's database slot: in the three closures that run the EVM (lifted, N10-lift) the database moved out with mem::take is swapped back on every exit path, including the early return when a call of an eth_callMany batch is rejected.",
+    "level_text": "Panic-freedom and termination, with NO precondition on request-controlled arguments, of the extracted request-facing functions: payload decoders (index, slice, arithmetic), select_bytes, build_lock_script (any pkscript / lock count), gas helpers, fork schedule, mine_blocks (count 0, loop bound), block-table loops with decreases, get_logs loops, parse_block_number (the slice `&number[2..]` is reached only behind the 0x-prefix test), the indexer-facing handlers without await; reachable panic!/expect/index are preconditions Verus must discharge; the engine's database slot: in the three closures that run the EVM (lifted, N10-lift) the database moved out with mem::take is swapped back on every exit path, including the early return when a call of an eth_callMany batch is rejected.",
     "level_note": COMMON_TRUST + "State-dependent ranges (heights, nonces < 2^63; from <= to in get_logs) are explicit preconditions. NOT covered: EVM execution (revm; assumed to keep owning the database it was given and not to panic), async handlers, ABI decoding (sol! macro), bitcoin / bip322 crates, decoders fed from the database.",
     "assumptions": ["heights/nonces < 2^63", "external crates (revm, alloy sol types, bitcoin, bip322) outside the kernel"],
 }
